@@ -58,6 +58,7 @@ class CFG:
         self.exit = self._new('exit')
         self.events = []
         self.by_sid = {}
+        self._leaves = {}
         self._build()
         self._events()
         self._doms()
@@ -100,7 +101,13 @@ class CFG:
             cur = preds
             for c in s['s']:
                 cur = self._stmt(c, cur, brk, cont)
+            if s.get('leave_id') is not None:
+                # the body of an inlined helper: its returns continue here
+                cur = cur + self._leaves.pop(s['leave_id'], [])
             return cur
+        if k == 'leave':
+            self._leaves.setdefault(s['target'], []).extend(preds)
+            return []
         if k == 'empty':
             return preds
         if k == 'expr':
